@@ -1439,6 +1439,7 @@ int32_t tls13ParseServerHello(ssl_t *ssl,
 {
     int32_t rc;
     psSizeL_t sessionIdLen = 0;
+    unsigned char sessionIdEcho[SSL_MAX_SESSION_ID_SIZE];
     uint32_t cipher;
     unsigned char compressionMethod;
     uint16_t tmp_u16;
@@ -1512,11 +1513,14 @@ int32_t tls13ParseServerHello(ssl_t *ssl,
         return PS_PARSE_FAIL;
     }
 
+    /* Not into ssl->sessionId: this may still turn out to be a TLS <1.3
+       ServerHello, and the legacy parser has to compare the server's
+       session id with the one we offered to see whether it resumes */
     if (sessionIdLen > 0)
     {
         rc = psParseBufTryParseOctets(pb,
                 sessionIdLen,
-                ssl->sessionId,
+                sessionIdEcho,
                 PS_TRUE);
         if (rc == 0)
         {
@@ -1526,7 +1530,7 @@ int32_t tls13ParseServerHello(ssl_t *ssl,
 
     psTracePrintHex(INDENT_HS_MSG,
             "legacy_session_id_echo",
-            ssl->sessionId,
+            sessionIdEcho,
             sessionIdLen,
             PS_TRUE);
 
